@@ -320,6 +320,28 @@ class LedgerGen:
             self.ops.append(f"codehash {a}")
         self.tags.add("scripted-code-overwrite" + (":written-back" if back else ""))
 
+    def scripted_touch_before_commit(self):
+        """block h writes only storage keys of an address that has no account record, and is flushed; before its commit arrives the
+        next block touches that address inside a transaction that is reverted as a whole (also a mere read is a first touch: it
+        journals the creation of the account object, and the revert drops the object again); what block h flushed must be read
+        back afterwards — before the commit (from the cache) and after it (from the database)"""
+        r = self.r
+        a = "a5"                         # used by this scenario only: never gets a record
+        ks = r.sample(KEYS, 2)
+        self.ops += [f"set {a} {ks[0]} {r.choice(['v1', 'v2', 'w'])}"] + ([f"set {a} {ks[1]} zz"] if r.random() < 0.6 else []) + ["finalise", "flush"]
+        touch = r.choice([f"get {a} {ks[0]}", f"get {a} {ks[1]}", f"bal {a}", f"query {a} ~", f"set {a} {ks[1]} w", f"del {a} {ks[0]}", f"nonce {a}"])
+        self.ops += ["snap", touch, "revert 0", f"get {a} {ks[0]}", f"get {a} {ks[1]}", f"query {a} ~", "finalise"]
+        self.height += 1
+        self.ops.append(f"commit {self.height}")
+        self.ops += [f"get {a} {ks[0]}", f"get {a} {ks[1]}", f"query {a} ~"]
+        self.ops += ["flush"]
+        self.height += 1
+        self.ops.append(f"commit {self.height}")
+        if r.random() < 0.4:
+            self.ops.append("reopen")
+        self.ops += [f"get {a} {ks[0]}", f"get {a} {ks[1]}"]
+        self.tags.add("scripted-touch-before-commit")
+
     def scripted_fork_rollback(self):
         """beyond the journal window: roll back a few blocks, commit a different continuation (its pruning bound lies below the
         retained minimum), then ask for a target below the window: refused, and nothing may have moved"""
@@ -358,6 +380,8 @@ class LedgerGen:
                 self.scripted_record_after_storage()
             if self.r.random() < 0.06:
                 self.scripted_code_overwrite()
+            if self.r.random() < 0.07:
+                self.scripted_touch_before_commit()
         self.dump()
         return History(self.ops, tags=self.tags)
 
